@@ -85,6 +85,16 @@ function buildValue(spec, state) {
       state.fnIds.set(f, id);
       return f;
     }
+    case 'recorder': {
+      // records the arguments of every call (C20: non-vue `defineComponent` look-alikes)
+      const id = spec.id;
+      const f = function (...args) {
+        state.recorded.push({ id, args });
+        return { recordedBy: id };
+      };
+      state.fnIds.set(f, id);
+      return f;
+    }
     case 'ctor':
       return globalThis[spec.v];
     case 'instance': {
@@ -122,6 +132,7 @@ function makeState() {
     vnodes: [],
     resolved: [],
     defined: [],
+    recorded: [],
     fnIds: new Map(),
     objIds: new Map(),
   };
@@ -306,7 +317,16 @@ async function evalDefine(code, envSpec, protocol) {
   }
   const vueNs = Object.assign({}, state.vue);
   delete vueNs.mkFactory;
-  const mods = { vue: vueNs, env: bound, other: { defineComponent: (...a) => ({ other: a.map(canon) }) } };
+  // another vue export that a module may import under the name `defineComponent` (C20)
+  vueNs.h = function (...args) {
+    state.recorded.push({ id: 'vue.h', args });
+    return { recordedBy: 'vue.h' };
+  };
+  const otherDc = function (...args) {
+    state.recorded.push({ id: 'other.defineComponent', args });
+    return { recordedBy: 'other' };
+  };
+  const mods = { vue: vueNs, env: bound, other: { defineComponent: otherDc } };
   try {
     await mod.link((spec) => {
       if (!(spec in mods)) throw new Error('unknown module ' + spec);
@@ -332,6 +352,7 @@ async function evalDefine(code, envSpec, protocol) {
   out.calls = state.defined.map((rec) => {
     const [setup, options] = rec.args;
     const r = { nargs: rec.args.length, arg0: canon(setup), options_kind: options === undefined ? 'absent' : typeof options };
+    if (protocol.rawArgs) r.args = rec.args.map(canon);
     if (options && typeof options === 'object') {
       r.keys = Object.keys(options);
       r.name = canon(options.name);
@@ -356,30 +377,13 @@ async function evalDefine(code, envSpec, protocol) {
             if (e.has_default) {
               // resolve the default the way Vue's resolvePropValue does
               const d = opt.default;
-              const isFnType = ty === Function || (Array.isArray(ty) && ty.includes(Function) && false);
               try {
-                if (typeof d === 'function' && ty !== Function && !opt.skipFactory) {
-                  e.default_called = true;
-                  const val = d({});
-                  e.default_async = val instanceof Promise;
-                  e.default = canon(val);
-                } else {
-                  e.default_called = false;
-                  e.default = canon(d);
-                  if (typeof d === 'function') {
-                    // function kept as the value itself: show what it returns too
-                    try {
-                      const rv = d();
-                      e.default_fn_async = rv instanceof Promise;
-                      e.default_fn_ret = rv instanceof Promise ? { $: 'promise' } : canon(rv);
-                    } catch (err) {
-                      e.default_fn_ret = canonError(err, 'default-fn');
-                    }
-                  }
-                }
-                void isFnType;
+                const isFactory = typeof d === 'function' && ty !== Function && !opt.skipFactory;
+                e.default_called = isFactory;
+                const resolved = isFactory ? d({}) : d;
+                e.resolved = canon(resolved);
               } catch (err) {
-                e.default = canonError(err, 'default');
+                e.resolved = canonError(err, 'default');
               }
             }
             if (protocol.inhabitants && protocol.inhabitants[k]) {
@@ -399,6 +403,7 @@ async function evalDefine(code, envSpec, protocol) {
     if (rec.args.length > 2) r.extra_args = rec.args.slice(2).map(canon);
     return r;
   });
+  out.recorded = state.recorded.map((r) => ({ id: r.id, args: r.args.map(canon) }));
   if (protocol.exports) {
     out.exports = {};
     for (const n of Object.keys(ns).sort()) {
